@@ -1,6 +1,7 @@
 CONSTANTS
   MaxDoc = 4
   MaxPre = 2
+  MaxPre2 = 1
   MaxMid = 1
   Lits1 = {"E", "A", "Aa", "B", "TR", "TRa"}
   Lits2 = {"X2", "Aa2"}
